@@ -355,16 +355,117 @@ def cfg_nodes(cfg: CFG, node) -> list:
     return cfg.stmt_nodes_containing(node)
 
 
+# ============================================================================ shared: collaborator objects
+
+def attr_class(repo, ci, attr: str):
+    """Class of the object the constructor (along the MRO) stores in `self.<attr>` (`self.attr = Cls(...)`)."""
+    for k in repo.mro(ci):
+        init = k.methods.get("__init__")
+        if init is None:
+            continue
+        for st in stores(init.node, into_defs=False):
+            if st.path == f"self.{attr}" and st.kind == "assign" and isinstance(st.value, ast.Call):
+                c = repo.resolve_class(ap(st.value.func) or "", k.module)
+                if c is not None:
+                    return c
+    return None
+
+
+def forwarded_field(repo, ci, name: str):
+    """`name` is a forwarding property of ci (`return self.<a>.<b>`): (collaborator class, b, a); else None."""
+    f = repo.lookup_method(ci, name)
+    if f is None or not any((ap(d) or "") == "property" for d in f.node.decorator_list):
+        return None
+    rets = [r for r in walk(f.node) if isinstance(r, ast.Return) and r.value is not None]
+    if len(rets) != 1:
+        return None
+    p = ap(rets[0].value) or ""
+    parts = p.split(".")
+    if len(parts) == 3 and parts[0] == "self":
+        c = attr_class(repo, ci, parts[1])
+        if c is not None:
+            return c, parts[2], parts[1]
+    return None
+
+
+def field_names(repo, ci, name: str) -> Dict[str, Any]:
+    """Last path components under which the state field `ci.<name>` is reached: {name: None, forwarded: collaborator class}."""
+    out: Dict[str, Any] = {name: None}
+    fw = forwarded_field(repo, ci, name)
+    if fw is not None:
+        out[fw[1]] = fw[0]
+    return out
+
+
+def resolve_any_call(repo, fi: FuncInfo, c: ast.Call) -> Optional[FuncInfo]:
+    """self.m() / cls.m() / self.<attr>.m() (method of the class the constructor stores in <attr>)."""
+    r = resolve_method_call(repo, fi, c)
+    if r is not None:
+        return r
+    f = c.func
+    if isinstance(f, ast.Attribute) and isinstance(f.value, ast.Attribute) and isinstance(f.value.value, ast.Name) \
+            and f.value.value.id == "self" and fi.cls is not None:
+        k = attr_class(repo, fi.cls, f.value.attr)
+        if k is not None:
+            return repo.lookup_method(k, f.attr)
+    return None
+
+
+def follow_delegate(repo, fi: FuncInfo) -> FuncInfo:
+    """A method whose whole body hands its parameters on to one other method (own or of a collaborator object)
+    stands for that method."""
+    for _ in range(3):
+        body = [s_ for s_ in fi.node.body if not (isinstance(s_, ast.Expr) and isinstance(s_.value, ast.Constant))]
+        if len(body) != 1 or not isinstance(body[0], (ast.Expr, ast.Return)) or not isinstance(body[0].value, ast.Call):
+            return fi
+        c = body[0].value
+        params = method_params(fi)
+        if [ap(a) for a in c.args] != params[:len(c.args)] or c.keywords:
+            return fi
+        nxt = resolve_any_call(repo, fi, c)
+        if nxt is None or nxt == fi:
+            return fi
+        fi = nxt
+    return fi
+
+
+def table_names(repo) -> Dict[str, Any]:
+    return field_names(repo, repo.cls("Circuit", BCIRC), "unacked_reliable")
+
+
+def is_table(repo, path: Optional[str]) -> bool:
+    return bool(path) and path.split(".")[-1].replace("[]", "") in table_names(repo)
+
+
+def table_writers(repo, field="unacked_reliable"):
+    """writers_of for a Circuit state field and its forwarded spelling inside the collaborator class (the
+    forwarded name is only counted in the collaborator class, the circuit classes, or through the collaborator attribute)."""
+    ccls = repo.cls("Circuit", BCIRC)
+    names = field_names(repo, ccls, field)
+    fw = forwarded_field(repo, ccls, field)
+    circ = {c.name for c in repo.subclasses(ccls)}
+    out = []
+    for nm, k in names.items():
+        for f, st in writers_of(repo, nm):
+            if k is None or (f.cls is not None and (f.cls.name == k.name or f.cls.name in circ)) \
+                    or (fw is not None and f".{fw[2]}." in st.path):
+                out.append((f, st))
+    return out
+
+
 # ============================================================================ shared: collect_acks flow
 
 class AckFlow(Explorer):
     """Which ack forms (appended `message.acks`, `PacketAck` block IDs) definitely reach the
     unacked-table removal on each path of collect_acks (must-include analysis)."""
 
-    def __init__(self, fi: FuncInfo, msg: str, table="unacked_reliable"):
+    def __init__(self, fi: FuncInfo, msg: str, tables=("unacked_reliable",)):
         super().__init__()
-        self.fi, self.msg, self.table = fi, msg, table
+        self.fi, self.msg, self.tables = fi, msg, set(tables)
         self.keys: List[ast.AST] = []
+
+    def _is_table(self, path: Optional[str]) -> bool:
+        return bool(path) and path.split(".")[-1] in self.tables
 
     def is_packets(self, e) -> bool:
         return is_const_sub(e, "Packets") and ap(e.value) == self.msg
@@ -409,7 +510,7 @@ class AckFlow(Explorer):
     def _unguarded(self, node, loop) -> bool:
         for e, pol in facts(node, loop):
             if isinstance(e, ast.Compare) and len(e.ops) == 1 and isinstance(e.ops[0], ast.In) and pol \
-                    and (ap(e.comparators[0]) or "").endswith(self.table):
+                    and self._is_table(ap(e.comparators[0])):
                 continue
             return False
         return True
@@ -451,12 +552,12 @@ class AckFlow(Explorer):
             seen_any = False
             for n in walk(ast.Module(body=s.body, type_ignores=[])):
                 key = None
-                if isinstance(n, ast.Call) and call_attr(n) == "pop" and (ap(n.func) or "").endswith(f"{self.table}.pop") \
-                        and n.args:
+                if isinstance(n, ast.Call) and call_attr(n) == "pop" and isinstance(n.func, ast.Attribute) \
+                        and self._is_table(ap(n.func.value)) and n.args:
                     key = n.args[0]
                 elif isinstance(n, ast.Delete):
                     for t in n.targets:
-                        if isinstance(t, ast.Subscript) and (ap(t.value) or "").endswith(self.table):
+                        if isinstance(t, ast.Subscript) and self._is_table(ap(t.value)):
                             key = t.slice
                 if key is not None:
                     if isinstance(key, ast.Name):
@@ -483,9 +584,9 @@ def check_collect_acks(ctx, rule: str):
     includes message.acks, and the PacketAck block IDs whenever the message is a PacketAck;
     the key direction is the inverse of the ack's own direction."""
     repo = ctx.repo
-    fi = repo.fn("Circuit.collect_acks", BCIRC)
+    fi = follow_delegate(repo, repo.fn("Circuit.collect_acks", BCIRC))
     msg = msg_param(fi)
-    fl = AckFlow(fi, msg)
+    fl = AckFlow(fi, msg, tables=table_names(repo))
     outs = fl.explore(fi.node.body, St(data={"vars": {}, "popped": frozenset()}))
     n = 0
     saw_blocks = False
@@ -528,8 +629,10 @@ def check_pairing(ctx, rule: str, names=("collect_acks", "resend_unacked")):
     repo = ctx.repo
     total = 0
     for nm in names:
-        fi = repo.fn(f"Circuit.{nm}", BCIRC)
-        rem = [st for st in stores(fi.node, into_defs=True) if st.path.endswith("unacked_reliable")
+        fi = follow_delegate(repo, repo.fn(f"Circuit.{nm}", BCIRC))
+        if nm == "resend_unacked":
+            fi = resend_core(repo, fi)[0]
+        rem = [st for st in stores(fi.node, into_defs=True) if is_table(repo, st.path)
                and (st.kind == "delitem" or (st.kind == "mutcall" and st.method in ("pop", "popitem", "clear")))]
         ctx.ob(rule, f"Circuit.{nm} removes entries from the unacked table", bool(rem), fi.where,
                "no removal left: an acknowledged / exhausted send stays registered and keeps being retransmitted")
@@ -892,6 +995,9 @@ def r1(ctx):
                 continue
             if f in role_fns or (f.cls is not None and f.cls.name == "InjectionTracker"):
                 continue
+            tgt = resolve_any_call(repo, f, c)
+            if tgt is not None and (tgt.cls is None or tgt.cls.name != "InjectionTracker"):
+                continue      # same method name on another class (resolved receiver)
             ctx.ob("C05.R1", f"{f.qual}: {norm(c)} outside the proxied-circuit rewrite functions", False, ctx.w(f, c),
                    "InjectionTracker state driven from outside prepare_message/drop_message and their helpers")
 
@@ -1295,6 +1401,25 @@ def check_invert(ctx, rule):
 
 # ============================================================================ R4 unacked table
 
+def insertion_sites(repo):
+    """(function, store, call site in send or None, name of the message there): insertions into the unacked
+    table in Circuit.send itself, or in the method (own / collaborator) send hands the message to."""
+    send = repo.fn("Circuit.send", BCIRC)
+    m = msg_param(send)
+    ins = [(send, st, None, m) for st in stores(send.node) if is_table(repo, st.path) and st.kind == "setitem"]
+    for c in calls(send.node, into_defs=False):
+        callee = resolve_any_call(repo, send, c)
+        if callee is None or callee == send:
+            continue
+        params = method_params(callee)
+        cm = next((params[i] for i, a_ in enumerate(c.args) if i < len(params) and ap(a_) == m), None) or \
+            next((k.arg for k in c.keywords if ap(k.value) == m), None)
+        for st in stores(callee.node):
+            if is_table(repo, st.path) and st.kind == "setitem":
+                ins.append((callee, st, c, cm))
+    return ins
+
+
 TABLE_OWNERS = {
     "Circuit.__init__": {"assign"},
     "Circuit.disconnect": {"mutcall:clear", "assign"},
@@ -1309,44 +1434,68 @@ def r4(ctx):
     ctx.rule("C05.R4", "unacked table: inserted only by send for reliable synthetic packets after prepare_message; "
                        "every removal completes the future; both ack forms are collected; resends reuse the prepared "
                        "packet, are marked RESENT, and stop once the budget is spent")
+    # owners by role: the five circuit methods, the collaborator methods they hand the job to, the
+    # collaborator's constructor and the forwarding property's setter
+    allowed: Dict[str, set] = {}
+    ccls = repo.cls("Circuit", BCIRC)
+    for q, kinds in TABLE_OWNERS.items():
+        o = repo.fn(q, BCIRC)
+        allowed.setdefault(o.full, set()).update(kinds)
+        for c in calls(o.node, into_defs=True):
+            callee = resolve_any_call(repo, o, c)
+            if callee is not None and callee.module.rel == BCIRC and callee.name not in ("send", "_send_prepared_message",
+                                                                                          "prepare_message", "send_datagram"):
+                allowed.setdefault(callee.full, set()).update(kinds)
+    fw = forwarded_field(repo, ccls, "unacked_reliable")
+    if fw is not None:
+        init = fw[0].methods.get("__init__")
+        if init is not None:
+            allowed.setdefault(init.full, set()).add("assign")
+        for f in repo.all_funcs:
+            if f.cls is not None and f.cls.name == "Circuit" and f.name == "unacked_reliable" and f.qual.endswith(".setter"):
+                allowed.setdefault(f.full, set()).add("assign")
     n = 0
-    for f, st in writers_of(repo, "unacked_reliable"):
+    for f, st in table_writers(repo):
         kind = st.kind + (f":{st.method}" if st.kind == "mutcall" else "")
         n += 1
-        ok = kind in TABLE_OWNERS.get(f.qual, set()) and f.module.rel == BCIRC
-        ctx.ob("C05.R4", f"{f.qual}: {kind} on unacked_reliable is an owner operation", ok, ctx.w(f, st.node),
+        ok = kind in allowed.get(f.full, set())
+        ctx.ob("C05.R4", f"{f.qual}: {kind} on the unacked table is an owner operation", ok, ctx.w(f, st.node),
                "unacked table written outside its owners (send inserts, collect_acks/resend_unacked remove, "
                "disconnect clears)")
     ctx.floor("C05.R4", "unacked-table writers", n, 4)
 
     send = repo.fn("Circuit.send", BCIRC)
     m = msg_param(send)
-    ins = [st for st in stores(send.node) if st.path.endswith("unacked_reliable") and st.kind == "setitem"]
+    ins = insertion_sites(repo)
     ctx.ob("C05.R4", "Circuit.send registers reliable proxy-originated packets for resend", len(ins) >= 1, send.where,
            "nothing is ever inserted into the unacked table: injected reliable packets are never retransmitted")
-    for st in ins:
+    for fn, st, via, cm in ins:
+        levels = [(st.node, fn, cm)] + ([(via, send, m)] if via is not None else [])
+
+        def known(suffix, want=True):
+            return any(nm is not None and path_fact(nd, f"{nm}.{suffix}", f_.node) is want for nd, f_, nm in levels)
         key = st.target.slice
-        okk = entry_key(repo, send, key) == (f"{m}.direction", f"{m}.packet_id")
-        ctx.ob("C05.R4", "Circuit.send: table key is (message.direction, message.packet_id)", okk, ctx.w(send, st.node),
+        okk = cm is not None and entry_key(repo, fn, key) == (f"{cm}.direction", f"{cm}.packet_id")
+        ctx.ob("C05.R4", "Circuit.send: table key is (message.direction, message.packet_id)", okk, ctx.w(fn, st.node),
                f"key is {norm(key)}")
-        ctx.ob("C05.R4", "Circuit.send: insertion requires message.reliable", path_fact(st.node, f"{m}.reliable", send.node) is True,
-               ctx.w(send, st.node), "unreliable packets would be retransmitted")
-        ctx.ob("C05.R4", "Circuit.send: insertion requires message.synthetic", path_fact(st.node, f"{m}.synthetic", send.node) is True,
-               ctx.w(send, st.node), "endpoint-originated packets would be retransmitted by the proxy as well")
+        ctx.ob("C05.R4", "Circuit.send: insertion requires message.reliable", known("reliable"),
+               ctx.w(fn, st.node), "unreliable packets would be retransmitted")
+        ctx.ob("C05.R4", "Circuit.send: insertion requires message.synthetic", known("synthetic"),
+               ctx.w(fn, st.node), "endpoint-originated packets would be retransmitted by the proxy as well")
         ctx.ob("C05.R4", "Circuit.send: insertion happens after a successful prepare_message (final id known)",
-               call_fact(st.node, "prepare_message", send.node) is True, ctx.w(send, st.node))
-        extra = [norm(e) for e, pol in facts(st.node, send.node)
-                 if not (ap(e) in (f"{m}.reliable", f"{m}.synthetic") and pol)
+               any(call_fact(nd, "prepare_message", f_.node) is True for nd, f_, _ in levels), ctx.w(fn, st.node))
+        extra = [norm(e) for nd, f_, nm in levels for e, pol in facts(nd, f_.node)
+                 if not (ap(e) in (f"{nm}.reliable", f"{nm}.synthetic") and pol)
                  and not (isinstance(e, ast.Call) and call_attr(e) == "prepare_message" and pol)]
-        ctx.ob("C05.R4", "Circuit.send: insertion depends on nothing else", not extra, ctx.w(send, st.node),
+        ctx.ob("C05.R4", "Circuit.send: insertion depends on nothing else", not extra, ctx.w(fn, st.node),
                f"additionally depends on {extra}")
         val = st.value
-        if isinstance(val, ast.Name) and single_assign(send.node, val.id) is not None:
-            val = single_assign(send.node, val.id)
+        if isinstance(val, ast.Name) and single_assign(fn.node, val.id) is not None:
+            val = single_assign(fn.node, val.id)
         okv = isinstance(val, ast.Call) and call_attr(val) == "ReliableResendInfo" and \
-            any(k.arg == "message" and ap(k.value) == m for k in val.keywords) or \
-            (isinstance(val, ast.Call) and call_attr(val) == "ReliableResendInfo" and len(val.args) >= 2 and ap(val.args[1]) == m)
-        ctx.ob("C05.R4", "Circuit.send: the entry remembers the prepared message itself", bool(okv), ctx.w(send, st.node))
+            any(k.arg == "message" and ap(k.value) == cm for k in val.keywords) or \
+            (isinstance(val, ast.Call) and call_attr(val) == "ReliableResendInfo" and len(val.args) >= 2 and ap(val.args[1]) == cm)
+        ctx.ob("C05.R4", "Circuit.send: the entry remembers the prepared message itself", bool(okv), ctx.w(fn, st.node))
 
     check_collect_acks(ctx, "C05.R4")
     check_pairing(ctx, "C05.R4")
@@ -1424,10 +1573,52 @@ def entry_key(repo, fi: FuncInfo, expr, depth=0) -> Optional[Tuple[str, str]]:
     return out[0], out[1]
 
 
+class Emit:
+    """One place where a retransmission leaves the resend loop: a `_send_prepared_message(x)` call, or a
+    `yield x` of a generator whose consumer sends every item."""
+    def __init__(self, node, msg):
+        self.node, self.msg = node, msg
+        self.args = [msg] if msg is not None else []
+
+
+def resend_core(repo, cr: FuncInfo):
+    """(function holding the loop over the unacked table, emits, consumer problems).  The loop may live in a
+    generator (own method or collaborator) that resend_unacked iterates, sending each item."""
+    def table_loops(f):
+        return [n for n in walk(f.node) if isinstance(n, (ast.For, ast.AsyncFor))
+                and any(is_table(repo, ap(x)) for x in ast.walk(n.iter) if isinstance(x, (ast.Attribute, ast.Name)))]
+    if table_loops(cr):
+        return cr, [Emit(c, c.args[0] if c.args else None) for c in find_calls(cr.node, "_send_prepared_message", into_defs=False)], []
+    problems = []
+    for loop in [n for n in walk(cr.node) if isinstance(n, (ast.For, ast.AsyncFor)) and isinstance(n.iter, ast.Call)]:
+        g = resolve_any_call(repo, cr, loop.iter)
+        if g is None or not table_loops(g) or not any(isinstance(x, (ast.Yield, ast.YieldFrom)) for x in walk(g.node)):
+            continue
+        v = ap(loop.target)
+        sent = [c for c in find_calls(ast.Module(body=loop.body, type_ignores=[]), "_send_prepared_message", into_defs=False)
+                if c.args and ap(c.args[0]) == v and not facts(c, loop)]
+        if not sent:
+            problems.append(f"the items handed out by {g.qual} are not all sent through _send_prepared_message")
+        if any(isinstance(x, ast.YieldFrom) for x in walk(g.node)):
+            raise AnalysisError(f"{g.qual}: `yield from` in the resend generator is not supported")
+        return g, [Emit(y, y.value) for y in walk(g.node) if isinstance(y, ast.Yield)], problems
+    return cr, [], ["no loop over the unacked table (directly or through a generator)"]
+
+
 def check_resend(ctx, rule):
     repo = ctx.repo
-    ru = repo.fn("Circuit.resend_unacked", BCIRC)
+    cr = repo.fn("Circuit.resend_unacked", BCIRC)
+    ru, sends, problems = resend_core(repo, follow_delegate(repo, cr))
+    for pr in problems:
+        ctx.ob(rule, "Circuit.resend_unacked sends what the resend loop hands out", False, cr.where, pr)
     cfg = CFG(ru.node)
+    if ru != cr:
+        for c in calls(cr.node, into_defs=True):
+            f = c.func
+            if isinstance(f, ast.Attribute) and isinstance(f.value, ast.Name) and f.value.id == "self" and \
+                    f.attr in ("send", "prepare_message", "send_reliable", "send_acks"):
+                ctx.ob(rule, f"Circuit.resend_unacked: {norm(c)} re-prepares the packet", False, ctx.w(cr, c),
+                       "a retransmission must go out through _send_prepared_message with its id unchanged")
     # forbidden re-preparation
     for c in calls(ru.node, into_defs=True):
         f = c.func
@@ -1436,17 +1627,17 @@ def check_resend(ctx, rule):
             ctx.ob(rule, f"Circuit.resend_unacked: {norm(c)} re-prepares the packet", False, ctx.w(ru, c),
                    "a retransmission must go out through _send_prepared_message with its id unchanged; send() "
                    "allocates/translates a new id and re-registers the packet")
-    sends = find_calls(ru.node, "_send_prepared_message", into_defs=False)
     ctx.ob(rule, "Circuit.resend_unacked re-emits through _send_prepared_message", len(sends) >= 1, ru.where,
            "unacknowledged packets are never retransmitted")
     pid = [st for st in stores(ru.node) if st.path.endswith(".packet_id")]
     ctx.ob(rule, "Circuit.resend_unacked keeps the packet id", not pid, ru.where, "packet_id is rewritten before the resend")
-    loops = [n for n in walk(ru.node) if isinstance(n, (ast.For, ast.AsyncFor)) and "unacked_reliable" in src(n.iter)]
+    loops = [n for n in walk(ru.node) if isinstance(n, (ast.For, ast.AsyncFor))
+             and any(is_table(repo, ap(x)) for x in ast.walk(n.iter) if isinstance(x, (ast.Attribute, ast.Name)))]
     ctx.require(len(loops) == 1, "resend_unacked: expected exactly one loop over the unacked table")
     loop = loops[0]
     head = cfg.nodes_for(loop)
     ctx.require(bool(head), "resend_unacked: loop head not in CFG")
-    send_nodes = [n for c in sends for n in cfg_nodes(cfg, c)]
+    send_nodes = [n for c in sends for n in cfg_nodes(cfg, c.node)]
     for c in sends:
         sent = c.args[0] if c.args else None
         sname = ap(sent) if sent is not None else None
@@ -1454,13 +1645,13 @@ def check_resend(ctx, rule):
                  and st.path == f"{sname}.send_flags" and (ap(st.value) or "").endswith("PacketFlags.RESENT")]
         mark_nodes = [n for st in marks for n in cfg.nodes_for(st.node)]
         reach = cfg.reachable(head, avoid=lambda n: n in mark_nodes)
-        ok = bool(marks) and not any(n in reach for n in cfg_nodes(cfg, c))
-        ctx.ob(rule, "Circuit.resend_unacked: every retransmission carries PacketFlags.RESENT", ok, ctx.w(ru, c),
+        ok = bool(marks) and not any(n in reach for n in cfg_nodes(cfg, c.node))
+        ctx.ob(rule, "Circuit.resend_unacked: every retransmission carries PacketFlags.RESENT", ok, ctx.w(ru, c.node),
                "a path reaches the resend without `send_flags |= PacketFlags.RESENT` on the message being sent")
         # the message sent is the entry's message (copy)
         origin = single_assign(ru.node, sname) if sname and "." not in sname else sent
         txt = src(origin) if origin is not None else ""
-        ctx.ob(rule, "Circuit.resend_unacked resends the entry's own message", ".message" in txt, ctx.w(ru, c),
+        ctx.ob(rule, "Circuit.resend_unacked resends the entry's own message", ".message" in txt, ctx.w(ru, c.node),
                f"resent message comes from `{txt}`")
     # cadence: the resend is held back by a test on the time elapsed since last_resent, over the full duration
     def expand(e, depth=0, fn=None):
@@ -1483,12 +1674,12 @@ def check_resend(ctx, rule):
         return out
     for c in sends:
         tests = []
-        for cond in conditions(c, ru.node):
+        for cond in conditions(c.node, ru.node):
             parts = expand(cond.test)
             if any("last_resent" in src(p_) for p_ in parts):
                 tests.append((cond, parts))
         ctx.ob(rule, "Circuit.resend_unacked: a retransmission waits for the time elapsed since last_resent", bool(tests),
-               ctx.w(ru, c), "no dominating test on last_resent: every timer tick retransmits every unacked packet")
+               ctx.w(ru, c.node), "no dominating test on last_resent: every timer tick retransmits every unacked packet")
         for cond, parts in tests:
             comps = sorted({n.attr for p_ in parts for n in ast.walk(p_) if isinstance(n, ast.Attribute)
                             and n.attr in ("seconds", "microseconds", "days") and isinstance(n.ctx, ast.Load)})
@@ -1517,7 +1708,7 @@ def check_resend(ctx, rule):
     reach = cfg.reachable(head, avoid=lambda n: n in dec_nodes)
     ctx.ob(rule, "Circuit.resend_unacked: no retransmission without spending budget",
            not any(n in reach for n in send_nodes), ru.where, "a path resends without decrementing tries_left")
-    removals = [st for st in stores(ru.node) if st.path.endswith("unacked_reliable")
+    removals = [st for st in stores(ru.node) if is_table(repo, st.path)
                 and (st.kind == "delitem" or (st.kind == "mutcall" and st.method == "pop"))]
     exhausted = []
     for st in removals:
@@ -1538,6 +1729,14 @@ def check_resend(ctx, rule):
                not any(n in reach2 for n in send_nodes), ctx.w(ru, st.node),
                "the exhausted entry is still retransmitted after its completion signal fired")
         exc = [c for c in find_calls(ru.node, "set_exception") if _in_same_block(enclosing_stmt(st.node), c)]
+        # the removal comes first: completing the future can raise (cancelled / already done future), and then the
+        # entry must already be gone
+        comp_nodes = [n for c in exc for n in cfg_nodes(cfg, c)]
+        after_comp = cfg.reachable(comp_nodes, avoid=lambda n: n in head)
+        ctx.ob(rule, "Circuit.resend_unacked: the exhausted entry is removed before its future is completed",
+               not any(n in after_comp for n in rn), ctx.w(ru, st.node),
+               "set_exception runs before the removal: on a cancelled / already completed future it raises, the entry "
+               "stays in the table with a spent budget and is retransmitted forever")
         ctx.ob(rule, "Circuit.resend_unacked: budget exhaustion fails the send (set_exception)", len(exc) >= 1,
                ctx.w(ru, st.node), "the completion future is not failed when the budget is spent")
 
